@@ -763,6 +763,8 @@ class Engine(object):
                 if isinstance(item, (OptV,)) or item is NONE or isinstance(item, (str, StrV)):
                     return [(st, False)]
                 return [(st, b_or(*[equal(item, x) for x in vals]))]
+        if (self.pure or self.pure_depth) and (container is NONE or isinstance(container, OptV)):
+            return [(st, False)]      # spec expressions are total
         raise EngineError("'in' on %r" % (container,))
 
     def ev_IfExp(self, node, st):
@@ -1169,8 +1171,7 @@ class Engine(object):
 
     def comprehension(self, node, st, kind):
         saved = dict(st.env)
-        if kind == "set" and len(node.generators) == 1 and self._simple(node.generators[0].ifs + [node.elt]) or \
-                (kind == "condset" and len(node.generators) == 1):
+        if kind in ("set", "condset") and len(node.generators) == 1:
             g = node.generators[0]
             r = self.ev(g.iter, st)
             if len(r) == 1 and not isinstance(r[0][1], Raised):
